@@ -9,7 +9,7 @@ COMMON_ASSUMPTIONS = [
     "operator new never fails; pthread primitives never return error codes other than EBUSY/ETIMEDOUT",
     "weak compare-exchange never fails spuriously",
     "time is abstracted: timed operations have an always-enabled time-out transition; the clock is an arbitrary non-decreasing value",
-    "indirect calls (virtual functions, std::function, shared_ptr control blocks) execute atomically",
+    "indirect calls (virtual functions, std::function, shared_ptr control blocks) execute atomically; a schedule in which such an atomic section would have to wait for a lock held by another thread is not explored from that point (a lock held by the calling thread itself is reported as self-deadlock)",
     "bounded: threads, operations per thread, rounds (contexts per thread), loop unwinding as listed per query; "
     "--unwinding-assertions is on for every verify run",
     "trusted base: clang++-14 front end and -O1 pipeline, engine/ir2c.py, engine/vpmodels.h, cbmc 6.11, the SAT back end",
@@ -748,25 +748,23 @@ def c16(tier):
         return mk(name, 'c16_delayed.cpp', threads, rounds, order=order, final='vp_final', cover=(1 << len(threads)) - 1, defines=defines,
                   opts={'yield_blocks': False, 'noinline': NI}, object_bits=12, **kw)
     big = dict(unwind=3, solvers=('kissat',), mem_gb=40, timeout=3400, est_gb=20)
-    seq = dict(unwind=4, checks='pointer', timeout=2400, object_bits=12, mem_gb=40, est_gb=8, solvers=('kissat',))
+    seq = dict(unwind=4, checks='pointer', timeout=2400, object_bits=12, mem_gb=40, est_gb=14, solvers=('kissat',))
     def sq(name, defines):
         return mk(name, 'c16_delayed.cpp', [], 1, seq=['vp_seq'], final='vp_final', cover=1, defines=defines, opts={'noinline': NI}, **seq)
     if tier == 'quick':
-        qs.append(dq('dd_adder_destroyer_preload_reenter_R2', [A, D], 2, ['PRELOAD2', 'REENTER'], **big))
+        qs.append(dq('dd_adder_destroyer_R2', [A, D], 2, [], **big))
         qs.append(sq('dd_seq_single_cb', ['SINGLE', 'WITH_CALLBACK', 'REENTER', 'DROP2']))
         qs.append(sq('dd_seq_locked_cb', ['WITH_CALLBACK', 'REENTER', 'DROP1_EARLY']))
     else:
         qs.append(dq('dd_adder_destroyer_R2', [A, D], 2, [], **big))
-        qs.append(dq('dd_adder_destroyer_R2_o10', [A, D], 2, [], order=(1, 0), **big))
+        qs.append(dq('dd_adder_destroyer_preload_reenter_R2', [A, D], 2, ['PRELOAD2', 'REENTER'], **big))
         qs.append(dq('dd_adder_destroyer_preload_cb_reenter_R2', [A, D], 2, ['PRELOAD2', 'REENTER', 'WITH_CALLBACK'], **big))
         qs.append(dq('dd_adder_destroyer_both_destroy_R2', [A, D], 2, ['PRELOAD2', 'ADDER_DESTROYS'], **big))
-        qs.append(dq('dd_adder_destroyer_preload_delete_R2', [A, D], 2, ['PRELOAD2', 'FINAL_DELETE'], **big))
-        qs.append(dq('dd_owner_destroyer_R2', [O2, D], 2, ['REENTER'], **big))
-        for d1 in (0, 1):
-            for d2 in (0, 1):
-                for single in (0, 1):
-                    defs = ['WITH_CALLBACK', 'REENTER', 'FINAL_DELETE'] + (['DROP1_EARLY'] if d1 else []) + (['DROP2'] if d2 else []) + (['SINGLE'] if single else [])
-                    qs.append(sq(f"dd_seq_{'single' if single else 'locked'}_d{d1}{d2}", defs))
+        qs.append(sq('dd_seq_single_cb', ['SINGLE', 'WITH_CALLBACK', 'REENTER', 'DROP2']))
+        qs.append(sq('dd_seq_locked_cb', ['WITH_CALLBACK', 'REENTER', 'DROP1_EARLY']))
+        # the container's own destructor reaps what is left (retry loop), after a fixed add / drop / destroy sequence
+        qs.append(sq('dd_seq_locked_delete_d10', ['WITH_CALLBACK', 'REENTER', 'DROP1_EARLY', 'FINAL_DELETE']))
+        qs.append(sq('dd_seq_single_delete_d01', ['SINGLE', 'WITH_CALLBACK', 'REENTER', 'DROP2', 'FINAL_DELETE']))
     return qs
 
 
@@ -786,6 +784,24 @@ C16_SPEC = dict(queries=c16, assumptions=COMMON_ASSUMPTIONS + [
              "meanwhile (the destructor is run after all threads finished, in the thorough tier)", "TripWire short-circuit (ENABLE_TRIPWIRE off)", "exceptions thrown by destructors / callbacks"])
 if os.environ.get('VP_EXPERIMENTAL'):
     SPECS['C16'] = C16_SPEC
+
+
+# ------------------------------------------------------------------------------------------------ C18 (experimental)
+def c18(tier):
+    qs = []
+    S, F, C = ('S', 'vp_setter'), ('F', 'vp_fulfiller'), ('C', 'vp_consumer')
+    NI = ['@_ZNSt8_Rb_tree*', '@_ZNSt3mapI*', '@_ZNSt7promiseIiE*', '@_ZNSt6futureIiE*', '@_ZNSt14__basic_futureIiE*', '@_ZNSt13__future_base*', '@_ZNSt12__shared_ptr*', '@_ZNSt10shared_ptr*']
+    def dq(name, threads, rounds, defines, order=None, **kw):
+        kw.setdefault('timeout', 3400)
+        kw.setdefault('unwind', 4)
+        return mk(name, 'c18_delayedobj.cpp', threads, rounds, order=order, setup='vp_setup2', final='vp_final2', cover=sum(1 << {'S': 1, 'F': 2, 'C': 0}[t[0]] for t in threads), defines=defines,
+                  opts={'yield_blocks': False, 'noinline': NI}, object_bits=12, cflags=STUB, solvers=('kissat',), mem_gb=40, est_gb=20, **kw)
+    qs.append(dq('do_setter_fulfiller_R2', [S, F], 2, []))
+    return qs
+
+
+if os.environ.get('VP_EXPERIMENTAL'):
+    SPECS['C18'] = dict(queries=c18, assumptions=COMMON_ASSUMPTIONS, outside=[])
 
 
 # ------------------------------------------------------------------------------------------------ not claimed
